@@ -312,8 +312,12 @@ fn read_upper_command(cur: &mut SourceCursor, song: &mut Song) -> Token {
         Some(res) => return res,
         None => {}
     }
+    // report the unknown word on its own line (check_variables may have stepped over a multi-line comment)
+    let line_after = cur.line;
+    cur.line = lineno;
     read_error_cmd(cur, song, &cmd);
-    return Token::new_empty(&cmd, cur.line);
+    cur.line = line_after;
+    return Token::new_empty(&cmd, lineno);
 }
 
 fn read_def_user_function(cur: &mut SourceCursor, song: &mut Song) -> Token {
